@@ -1,7 +1,7 @@
 (** L1 proofs: safety invariants, quiescence and termination of the inbox
     interleaving model (Inbox.v), for every batch bound >= 1, any number of
     senders and messages, and every schedule.  Properties C01, C02, C03. *)
-From Coq Require Import List Arith Bool Lia Wellfounded Relations.
+From Coq Require Import List Arith Bool Lia Wellfounded Relations Permutation.
 Import ListNotations.
 From HV Require Import Inbox InboxExec.
 
@@ -215,5 +215,1178 @@ Proof.
   rewrite ?cnt_cons, ?cnt_nil in *; cbn [b2n pending_kick] in *; try lia;
   try (assert (0 < cnt pending_kick (thr s))
          by (apply HI; [congruence | first [assumption | congruence | eapply skipn_nonnil; eassumption]]); lia);
-  try (exfalso; apply Hq; assumption).
+  try (exfalso; apply Hq; first [assumption | reflexivity]).
 Qed.
+
+(* ------------------------------------------------------------------ *)
+(** * Conservation: delivered ++ dropped ++ inflight ++ q = pushed *)
+
+Definition fI (p : pc) : list msg := match p with WInvB b => b | _ => [] end.
+
+Lemma inflight_eq s : inflight s = flat_map fI (thr s).
+Proof. reflexivity. Qed.
+
+Lemma flat_map_set {B} (f : pc -> list B) l i old p extra :
+  nth_error l i = Some old ->
+  flat_map f l = flat_map f (firstn i l) ++ f old ++ flat_map f (skipn (S i) l) /\
+  flat_map f (firstn i l ++ p :: skipn (S i) l ++ extra)
+  = flat_map f (firstn i l) ++ f p ++ flat_map f (skipn (S i) l) ++ flat_map f extra.
+Proof.
+  intros H. split.
+  - rewrite (nth_split_set l i old H) at 1. rewrite flat_map_app. cbn [flat_map]. reflexivity.
+  - rewrite flat_map_app. cbn [flat_map]. rewrite flat_map_app. reflexivity.
+Qed.
+
+Lemma cnt_split3 f l i old :
+  nth_error l i = Some old -> cnt f l = cnt f (firstn i l) + b2n (f old) + cnt f (skipn (S i) l).
+Proof.
+  intros H. rewrite (nth_split_set l i old H) at 1. rewrite cnt_app, cnt_cons. lia.
+Qed.
+
+Lemma noB_flat l : cnt isWInvB l = 0 -> flat_map fI l = [].
+Proof.
+  induction l as [|a l IH]; [reflexivity|]. rewrite cnt_cons. intros H.
+  cbn [flat_map]. rewrite IH by lia. destruct a; cbn in *; try reflexivity. lia.
+Qed.
+
+(* the stepping thread is the only one that can be at WInvB *)
+Lemma inflight_only l i old p extra :
+  nth_error l i = Some old -> cnt isWInvB l <= b2n (isWInvB old) ->
+  flat_map fI l = fI old /\
+  flat_map fI (firstn i l ++ p :: skipn (S i) l ++ extra) = fI p ++ flat_map fI extra.
+Proof.
+  intros H Hc. pose proof (cnt_split3 isWInvB l i old H) as E.
+  destruct (flat_map_set fI l i old p extra H) as [E1 E2]. rewrite E1, E2.
+  rewrite !noB_flat by lia. cbn [app]. rewrite app_nil_r. split; reflexivity.
+Qed.
+
+Lemma inflight_same l i old p extra :
+  nth_error l i = Some old -> fI old = [] -> fI p = [] -> flat_map fI extra = [] ->
+  flat_map fI (firstn i l ++ p :: skipn (S i) l ++ extra) = flat_map fI l.
+Proof.
+  intros H H1 H2 H3. destruct (flat_map_set fI l i old p extra H) as [E1 E2].
+  rewrite E1, E2, H1, H2, H3. cbn [app]. rewrite app_nil_r. reflexivity.
+Qed.
+
+Definition ConsInv (s : st) : Prop :=
+  delivered s ++ dropped s ++ inflight s ++ q s = pushed s.
+
+Lemma TokenInv_B_le1 s : TokenInv s -> cnt isWInvB (thr s) <= 1.
+Proof. unfold TokenInv, TI. destruct (status_ s); lia. Qed.
+
+Lemma TokenInv_PoB_le1 s : TokenInv s -> cnt isWPop (thr s) + cnt isWInvB (thr s) <= 1.
+Proof. unfold TokenInv, TI. destruct (status_ s); lia. Qed.
+
+Lemma DropInv_noB s : TokenInv s -> DropInv s -> 0 < cnt isWInvB (thr s) -> dropped s = [].
+Proof.
+  unfold TokenInv, TI, DropInv. intros HT HD HB.
+  destruct (dropped s) as [|d dr]; [reflexivity|]. exfalso.
+  specialize (HD ltac:(discriminate)). destruct HD as [_ [HD|HD]].
+  - rewrite HD in HT. lia.
+  - destruct (status_ s); lia.
+Qed.
+
+Theorem cons_inv_step c s i s' l :
+  TokenInv s -> DropInv s -> ConsInv s -> step c s i = Some (s', l) -> ConsInv s'.
+Proof.
+  unfold ConsInv. rewrite !inflight_eq. intros HT HD HI.
+  step_cases s i Hn; unfold set_thr.
+  (* every step except push, pop, invoke-begin leaves all five lists alone *)
+  all: try (rewrite (inflight_same _ _ _ _ _ Hn) by reflexivity; exact HI).
+  - (* push *)
+    rewrite (inflight_same _ _ _ _ _ Hn) by reflexivity.
+    rewrite <- HI. rewrite <- !app_assoc. reflexivity.
+  - (* pop *)
+    pose proof (TokenInv_PoB_le1 s HT) as Hle.
+    pose proof (cnt_pos isWPop _ _ _ Hn eq_refl) as Hpos.
+    match goal with |- context [WInvB ?bb :: _] =>
+      destruct (inflight_only (thr s) i WPop (WInvB bb) [] Hn) as [E1 E2]; [cbn; lia|] end.
+    rewrite E2. rewrite E1 in HI. cbn [fI flat_map app] in *. rewrite app_nil_r.
+    rewrite firstn_skipn. exact HI.
+  - (* invoke, pill *)
+    pose proof (TokenInv_B_le1 s HT) as Hle.
+    pose proof (cnt_pos isWInvB _ _ _ Hn eq_refl) as Hpos.
+    rewrite (DropInv_noB s HT HD Hpos) in *.
+    destruct (inflight_only (thr s) i (WInvB b) WStop [] Hn) as [E1 E2]; [cbn; lia|].
+    rewrite E2. rewrite E1 in HI. cbn [fI flat_map app] in *.
+    rewrite <- HI. rewrite <- (before_after_pill b) at 3. rewrite <- !app_assoc. reflexivity.
+  - (* invoke, no pill *)
+    pose proof (TokenInv_B_le1 s HT) as Hle.
+    pose proof (cnt_pos isWInvB _ _ _ Hn eq_refl) as Hpos.
+    rewrite (DropInv_noB s HT HD Hpos) in *.
+    destruct (inflight_only (thr s) i (WInvB b) WInvE [] Hn) as [E1 E2]; [cbn; lia|].
+    rewrite E2. rewrite E1 in HI. cbn [fI flat_map app] in *.
+    rewrite <- HI. rewrite <- (before_after_pill b) at 3. rewrite <- !app_assoc. reflexivity.
+Qed.
+
+(* ------------------------------------------------------------------ *)
+(** * What one step does to the thread list and to [pushed] *)
+
+Definition remaining (p : pc) : list msg :=
+  match p with SPush ms => ms | SCas ms => ms | _ => [] end.
+
+Lemma program_msgs_eq clients : program_msgs clients = flat_map remaining clients.
+Proof. reflexivity. Qed.
+
+Lemma step_summary c s i s' l :
+  step c s i = Some (s', l) ->
+  exists old p extra,
+    nth_error (thr s) i = Some old /\
+    thr s' = firstn i (thr s) ++ p :: skipn (S i) (thr s) ++ extra /\
+    (extra = [] \/ extra = [WLoad]) /\
+    ((pushed s' = pushed s /\ remaining p = remaining old) \/
+     (exists m, pushed s' = pushed s ++ [m] /\ remaining old = m :: remaining p /\ l = LPush m)).
+Proof.
+  step_cases s i Hn; unfold set_thr; do 3 eexists;
+  (split; [reflexivity|]); (split; [reflexivity|]);
+  (split; [first [left; reflexivity | right; reflexivity]|]);
+  first [left; split; reflexivity | right; eexists; repeat split; reflexivity].
+Qed.
+
+Lemma set_length {A} (l : list A) i old p extra :
+  nth_error l i = Some old ->
+  length (firstn i l ++ p :: skipn (S i) l ++ extra) = length l + length extra.
+Proof.
+  revert i. induction l as [|a l IH]; intros [|i] H; try discriminate.
+  - cbn [firstn skipn app length]. rewrite app_length. reflexivity.
+  - cbn [nth_error] in H. rewrite skipn_cons. cbn [firstn app length]. rewrite (IH i H). reflexivity.
+Qed.
+
+Lemma nth_error_set_cases {A} (l : list A) i old p extra j x :
+  nth_error l i = Some old ->
+  nth_error (firstn i l ++ p :: skipn (S i) l ++ extra) j = Some x ->
+  (j = i /\ x = p) \/ (j <> i /\ nth_error l j = Some x) \/ (length l <= j /\ In x extra).
+Proof.
+  revert i j. induction l as [|a l IH]; intros [|i] [|j] H Hj; try discriminate.
+  - cbn in Hj. injection Hj as <-. left. split; reflexivity.
+  - cbn [firstn skipn app nth_error] in Hj. right.
+    destruct (Nat.lt_ge_cases j (length l)) as [Hlt|Hge].
+    + left. split; [discriminate|]. rewrite nth_error_app1 in Hj by exact Hlt. exact Hj.
+    + right. rewrite nth_error_app2 in Hj by exact Hge. split; [cbn; lia|].
+      eapply nth_error_In. exact Hj.
+  - cbn in Hj. injection Hj as <-. right. left. split; [discriminate|reflexivity].
+  - cbn [nth_error] in H. cbn [firstn skipn app nth_error] in Hj.
+    destruct (IH i j H Hj) as [[-> ->]|[[Hne Hx]|[Hge Hin]]].
+    + left. split; reflexivity.
+    + right. left. split; [congruence|exact Hx].
+    + right. right. split; [cbn; lia|exact Hin].
+Qed.
+
+Lemma step_length c s i s' l :
+  step c s i = Some (s', l) -> length (thr s) <= length (thr s').
+Proof.
+  intros H. destruct (step_summary _ _ _ _ _ H) as (old & p & extra & Hn & Hthr & _).
+  rewrite Hthr, (set_length _ _ _ _ _ Hn). lia.
+Qed.
+
+(* ------------------------------------------------------------------ *)
+(** * Program order *)
+
+(* program of thread j of the initial thread list T0 *)
+Definition prog (T0 : list pc) (j : nat) : list msg :=
+  match nth_error T0 j with Some p0 => remaining p0 | None => [] end.
+
+Definition ProgInv (T0 : list pc) (s : st) : Prop :=
+  length T0 <= length (thr s) /\
+  forall j p, nth_error (thr s) j = Some p ->
+    sub_of (prog T0 j) (pushed s) ++ remaining p = prog T0 j.
+
+Lemma existsb_eqb_In m l : existsb (Nat.eqb m) l = true <-> In m l.
+Proof.
+  rewrite existsb_exists. split.
+  - intros (x & Hx & E). apply Nat.eqb_eq in E. subst. exact Hx.
+  - intros H. exists m. split; [exact H|apply Nat.eqb_refl].
+Qed.
+
+Lemma sub_of_snoc P l m :
+  sub_of P (l ++ [m]) = sub_of P l ++ (if existsb (Nat.eqb m) P then [m] else []).
+Proof. unfold sub_of. rewrite filter_app. reflexivity. Qed.
+
+Lemma sub_of_nil l : sub_of [] l = [].
+Proof. unfold sub_of. induction l as [|a l IH]; [reflexivity|exact IH]. Qed.
+
+Lemma NoDup_app_disj {A} (a b : list A) x : NoDup (a ++ b) -> In x a -> In x b -> False.
+Proof.
+  induction a as [|y a IH]; intros H Ha Hb; [exact Ha|].
+  cbn [app] in H. apply NoDup_cons_iff in H. destruct H as [Hy H]. destruct Ha as [->|Ha].
+  - apply Hy. apply in_or_app. right. exact Hb.
+  - exact (IH H Ha Hb).
+Qed.
+
+Lemma NoDup_app_r {A} (a b : list A) : NoDup (a ++ b) -> NoDup b.
+Proof.
+  induction a as [|y a IH]; intros H; [exact H|].
+  cbn [app] in H. apply NoDup_cons_iff in H. apply IH. apply H.
+Qed.
+
+Lemma prog_in_all T0 j m : In m (prog T0 j) -> In m (flat_map remaining T0).
+Proof.
+  unfold prog. destruct (nth_error T0 j) as [p0|] eqn:E; [|intros []].
+  intros H. apply in_flat_map. exists p0. split; [eapply nth_error_In; exact E|exact H].
+Qed.
+
+Lemma prog_disjoint T0 i j m :
+  NoDup (flat_map remaining T0) -> i <> j -> In m (prog T0 i) -> In m (prog T0 j) -> False.
+Proof.
+  revert i j. induction T0 as [|a T0 IH]; intros i j ND Hne Hi Hj.
+  - unfold prog in Hi. destruct i; exact Hi.
+  - cbn [flat_map] in ND. destruct i as [|i], j as [|j].
+    + congruence.
+    + unfold prog in Hi, Hj. cbn [nth_error] in Hi, Hj.
+      eapply NoDup_app_disj; [exact ND|exact Hi|]. apply (prog_in_all T0 j). exact Hj.
+    + unfold prog in Hi, Hj. cbn [nth_error] in Hi, Hj.
+      eapply NoDup_app_disj; [exact ND|exact Hj|]. apply (prog_in_all T0 i). exact Hi.
+    + apply (IH i j); [eapply NoDup_app_r; exact ND|congruence|exact Hi|exact Hj].
+Qed.
+
+Lemma prog_inv_init T0 stt : ProgInv T0 {| status_ := stt; q := []; thr := T0; delivered := []; dropped := []; pushed := [] |}.
+Proof.
+  split; [reflexivity|]. cbn [thr pushed]. intros j p H. unfold prog. rewrite H. reflexivity.
+Qed.
+
+Theorem prog_inv_step T0 c s i s' l :
+  NoDup (flat_map remaining T0) ->
+  ProgInv T0 s -> step c s i = Some (s', l) -> ProgInv T0 s'.
+Proof.
+  intros ND [HL HI] Hstep.
+  destruct (step_summary _ _ _ _ _ Hstep) as (old & p & extra & Hn & Hthr & Hex & Hpush).
+  split.
+  - pose proof (step_length _ _ _ _ _ Hstep). lia.
+  - intros j x Hj. rewrite Hthr in Hj.
+    pose proof (HI i old Hn) as Hi.
+    destruct (nth_error_set_cases _ _ _ _ _ _ _ Hn Hj) as [[-> ->]|[[Hne Hx]|[Hge Hin]]].
+    + destruct Hpush as [[Hp Hr]|(m & Hp & Hr & _)].
+      * rewrite Hp, Hr. exact Hi.
+      * rewrite Hp, sub_of_snoc. rewrite Hr in Hi.
+        assert (Hm : existsb (Nat.eqb m) (prog T0 i) = true).
+        { apply existsb_eqb_In. rewrite <- Hi. apply in_or_app. right. left. reflexivity. }
+        rewrite Hm, <- app_assoc. exact Hi.
+    + specialize (HI j x Hx). destruct Hpush as [[Hp Hr]|(m & Hp & Hr & _)].
+      * rewrite Hp. exact HI.
+      * rewrite Hp, sub_of_snoc. rewrite Hr in Hi.
+        destruct (existsb (Nat.eqb m) (prog T0 j)) eqn:Hm.
+        -- exfalso. apply existsb_eqb_In in Hm.
+           apply (prog_disjoint T0 i j m ND); [congruence| |exact Hm].
+           rewrite <- Hi. apply in_or_app. right. left. reflexivity.
+        -- rewrite app_nil_r. exact HI.
+    + assert (Hnone : prog T0 j = []).
+      { unfold prog. destruct (nth_error T0 j) eqn:E; [|reflexivity].
+        exfalso. assert (j < length T0) by (apply nth_error_Some; congruence). lia. }
+      rewrite Hnone, sub_of_nil.
+      destruct Hex as [->| ->]; [destruct Hin|]. destruct Hin as [<-|[]]. reflexivity.
+Qed.
+
+(* ------------------------------------------------------------------ *)
+(** * Counting messages: nothing is invented or lost by the senders *)
+
+Definition cntm (f : msg -> bool) (l : list msg) : nat := length (filter f l).
+
+Definition CountInv (f : msg -> bool) (T0 : list pc) (s : st) : Prop :=
+  cntm f (pushed s) + sumf (fun p => cntm f (remaining p)) (thr s) = cntm f (flat_map remaining T0).
+
+Lemma cntm_app f a b : cntm f (a ++ b) = cntm f a + cntm f b.
+Proof. unfold cntm. rewrite filter_app, app_length. reflexivity. Qed.
+
+Lemma cntm_cons f m l : cntm f (m :: l) = b2n (f m) + cntm f l.
+Proof. unfold cntm. cbn [filter]. destruct (f m); reflexivity. Qed.
+
+Lemma cntm_flat_map f l : cntm f (flat_map remaining l) = sumf (fun p => cntm f (remaining p)) l.
+Proof.
+  induction l as [|a l IH]; [reflexivity|]. cbn [flat_map]. rewrite cntm_app, sumf_cons, IH. reflexivity.
+Qed.
+
+Lemma count_inv_init f T0 stt :
+  CountInv f T0 {| status_ := stt; q := []; thr := T0; delivered := []; dropped := []; pushed := [] |}.
+Proof. unfold CountInv. cbn [pushed thr]. rewrite cntm_flat_map. reflexivity. Qed.
+
+Theorem count_inv_step f T0 c s i s' l :
+  CountInv f T0 s -> step c s i = Some (s', l) -> CountInv f T0 s'.
+Proof.
+  unfold CountInv. intros HI Hstep.
+  destruct (step_summary _ _ _ _ _ Hstep) as (old & p & extra & Hn & Hthr & Hex & Hpush).
+  rewrite Hthr.
+  pose proof (sumf_set (fun p => cntm f (remaining p)) _ _ _ p extra Hn) as E. cbv beta in E.
+  assert (Hx : sumf (fun p => cntm f (remaining p)) extra = 0) by (destruct Hex as [->| ->]; reflexivity).
+  destruct Hpush as [[Hp Hr]|(m & Hp & Hr & _)].
+  - rewrite Hp. rewrite Hr in E. lia.
+  - rewrite Hp, cntm_app, (cntm_cons f m []). rewrite Hr, cntm_cons in E.
+    change (cntm f []) with 0. lia.
+Qed.
+
+Lemma cntm_true l : cntm (fun _ => true) l = length l.
+Proof. unfold cntm. induction l as [|a l IH]; [reflexivity|]. cbn. rewrite IH. reflexivity. Qed.
+
+Lemma cntm_zero_existsb f l : cntm f l = 0 <-> existsb f l = false.
+Proof.
+  unfold cntm. induction l as [|a l IH]; [split; reflexivity|]. cbn [filter existsb].
+  destruct (f a); cbn [length orb]; [split; discriminate|exact IH].
+Qed.
+
+(* ------------------------------------------------------------------ *)
+(** * Pill-free programs: nothing is dropped, the inbox is never stopped again *)
+
+Definition NP1 (s : st) : Prop := cnt isWStop (thr s) = 0 /\ dropped s = [].
+(* a started inbox is stopped only while its starter has not yet run *)
+Definition NP2 (s : st) : Prop := status_ s = Stopped -> cnt isTCas (thr s) = 1.
+
+Lemma existsb_app_false {A} (f : A -> bool) a b :
+  existsb f (a ++ b) = false -> existsb f a = false /\ existsb f b = false.
+Proof. rewrite existsb_app. apply orb_false_elim. Qed.
+
+Lemma batch_pill_free s i b :
+  ConsInv s -> pills_in (pushed s) = false -> nth_error (thr s) i = Some (WInvB b) -> has_pill b = false.
+Proof.
+  unfold ConsInv, pills_in, has_pill. intros HC HP Hn. rewrite <- HC in HP.
+  apply existsb_app_false in HP. destruct HP as [_ HP].
+  apply existsb_app_false in HP. destruct HP as [_ HP].
+  apply existsb_app_false in HP. destruct HP as [HP _].
+  rewrite inflight_eq in HP. destruct (flat_map_set fI (thr s) i _ Done [] Hn) as [E _].
+  rewrite E in HP. apply existsb_app_false in HP. destruct HP as [_ HP].
+  apply existsb_app_false in HP. destruct HP as [HP _]. exact HP.
+Qed.
+
+Theorem np1_step c s i s' l :
+  ConsInv s -> pills_in (pushed s) = false -> NP1 s -> step c s i = Some (s', l) -> NP1 s'.
+Proof.
+  unfold NP1. intros HC HP [HS HD].
+  pose proof (batch_pill_free s i) as Hb. specialize (fun b => Hb b HC HP).
+  step_cases s i Hn; try (rewrite (Hb _ eq_refl) in *; discriminate);
+  try (rewrite (has_pill_after _ ltac:(eassumption)), app_nil_r);
+  (split; [|exact HD]);
+  match goal with
+  | |- context [set_thr ?s ?i ?p ?extra] =>
+      pose proof (cnt_set isWStop (thr s) i _ p extra Hn) as E; unfold set_thr
+  end;
+  rewrite ?cnt_cons, ?cnt_nil in *; cbn [b2n isWStop] in *; lia.
+Qed.
+
+Theorem np2_step c s i s' l :
+  ConsInv s -> pills_in (pushed s) = false -> NP1 s -> NP2 s -> step c s i = Some (s', l) -> NP2 s'.
+Proof.
+  unfold NP1, NP2. intros HC HP [HS HD] HI.
+  pose proof (batch_pill_free s i) as Hb. specialize (fun b => Hb b HC HP).
+  step_cases s i Hn; try (rewrite (Hb _ eq_refl) in *; discriminate);
+  intros Hst; try discriminate Hst; try specialize (HI Hst); try specialize (HI eq_refl);
+  match goal with
+  | |- context [set_thr ?s ?i ?p ?extra] =>
+      pose proof (cnt_set isWStop (thr s) i _ p extra Hn) as E;
+      pose proof (cnt_set isTCas (thr s) i _ p extra Hn) as E2; unfold set_thr
+  end;
+  rewrite ?cnt_cons, ?cnt_nil in *; cbn [b2n isWStop isTCas] in *; try lia; congruence.
+Qed.
+
+(* ------------------------------------------------------------------ *)
+(** * Initial states *)
+
+Definition valid_start (clients : list pc) (s0 : st) : Prop :=
+  forallb client_ok clients = true /\
+  ((s0 = init clients /\ cnt is_starter clients <= 1) \/
+   (s0 = init_started clients /\ cnt is_starter clients = 0)).
+
+(* the inbox gets started: exactly one starter, or started already *)
+Definition started_start (clients : list pc) (s0 : st) : Prop :=
+  forallb client_ok clients = true /\
+  ((s0 = init clients /\ cnt is_starter clients = 1) \/
+   (s0 = init_started clients /\ cnt is_starter clients = 0)).
+
+Lemma started_valid clients s0 : started_start clients s0 -> valid_start clients s0.
+Proof. intros [H [[-> E]|[-> E]]]; (split; [exact H|]); [left|right]; split; try reflexivity; lia. Qed.
+
+Lemma cnt_clients f l :
+  forallb client_ok l = true -> (forall p, client_ok p = true -> f p = false) -> cnt f l = 0.
+Proof.
+  intros H Hf. apply cnt_zero_all. intros p Hp. apply Hf.
+  rewrite forallb_forall in H. apply H. exact Hp.
+Qed.
+
+Lemma cnt_clients_ext f g l :
+  forallb client_ok l = true -> (forall p, client_ok p = true -> f p = g p) -> cnt f l = cnt g l.
+Proof.
+  induction l as [|a l IH]; intros H Hf; [reflexivity|]. cbn [forallb] in H.
+  apply andb_prop in H. destruct H as [Ha H]. rewrite !cnt_cons, (Hf a Ha), (IH H Hf). reflexivity.
+Qed.
+
+Ltac client_cases := let p := fresh "p" in intros p; destruct p; cbn; intros; congruence.
+
+Lemma start_thr_msgs clients s0 :
+  valid_start clients s0 -> flat_map remaining (thr s0) = program_msgs clients.
+Proof. intros [_ [[-> _]|[-> _]]]; reflexivity. Qed.
+
+Lemma inv_init clients s0 :
+  valid_start clients s0 -> TokenInv s0 /\ DropInv s0 /\ WakeInv s0 /\ ConsInv s0.
+Proof.
+  intros [Hok Hs].
+  assert (HC : cnt isTCas clients = cnt is_starter clients) by (apply cnt_clients_ext; [exact Hok|client_cases]).
+  assert (H1 : cnt atTS clients = 0) by (apply cnt_clients; [exact Hok|client_cases]).
+  assert (H2 : cnt isWLoad clients = 0) by (apply cnt_clients; [exact Hok|client_cases]).
+  assert (H3 : cnt isWPop clients = 0) by (apply cnt_clients; [exact Hok|client_cases]).
+  assert (H4 : cnt isWInvB clients = 0) by (apply cnt_clients; [exact Hok|client_cases]).
+  assert (H5 : cnt isWStop clients = 0) by (apply cnt_clients; [exact Hok|client_cases]).
+  assert (H6 : cnt isWInvE clients = 0) by (apply cnt_clients; [exact Hok|client_cases]).
+  assert (H7 : cnt isWExit clients = 0) by (apply cnt_clients; [exact Hok|client_cases]).
+  assert (H8 : cnt is_worker clients = 0) by (apply cnt_clients; [exact Hok|client_cases]).
+  destruct Hs as [[-> Hc]|[-> Hc]]; unfold TokenInv, TI, DropInv, WakeInv, ConsInv, init, init_started;
+  cbn [status_ thr q delivered dropped pushed app];
+  rewrite ?cnt_cons; cbn [b2n isTCas atTS isWLoad isWPop isWInvB isWStop isWInvE isWExit is_worker].
+  - repeat split; try lia; try congruence.
+    rewrite inflight_eq; cbn [thr]. rewrite noB_flat by exact H4. reflexivity.
+  - repeat split; try lia; try congruence.
+    rewrite inflight_eq; cbn [thr flat_map fI app]. rewrite noB_flat by exact H4. reflexivity.
+Qed.
+
+Theorem reach_inv c clients s0 s :
+  valid_start clients s0 -> reach c s0 s ->
+  TokenInv s /\ DropInv s /\ WakeInv s /\ ConsInv s.
+Proof.
+  intros Hv Hr. induction Hr as [|s i s' l Hr IH Hstep]; [exact (inv_init _ _ Hv)|].
+  destruct IH as (HT & HD & HW & HC). split; [|split; [|split]].
+  - exact (token_inv_step _ _ _ _ _ HT Hstep).
+  - exact (drop_inv_step _ _ _ _ _ HT HD Hstep).
+  - exact (wake_inv_step _ _ _ _ _ HW Hstep).
+  - exact (cons_inv_step _ _ _ _ _ HT HD HC Hstep).
+Qed.
+
+Lemma start_is_T0 clients s0 :
+  valid_start clients s0 ->
+  s0 = {| status_ := status_ s0; q := []; thr := thr s0; delivered := []; dropped := []; pushed := [] |}.
+Proof. intros [_ [[-> _]|[-> _]]]; reflexivity. Qed.
+
+Theorem reach_prog c clients s0 s :
+  valid_start clients s0 -> NoDup (program_msgs clients) -> reach c s0 s -> ProgInv (thr s0) s.
+Proof.
+  intros Hv ND Hr. induction Hr as [|s i s' l Hr IH Hstep].
+  - rewrite (start_is_T0 _ _ Hv) at 2. apply prog_inv_init.
+  - eapply prog_inv_step; [|exact IH|exact Hstep]. rewrite (start_thr_msgs _ _ Hv). exact ND.
+Qed.
+
+Theorem reach_count c clients s0 s f :
+  valid_start clients s0 -> reach c s0 s ->
+  cntm f (pushed s) + sumf (fun p => cntm f (remaining p)) (thr s) = cntm f (program_msgs clients).
+Proof.
+  intros Hv Hr. rewrite <- (start_thr_msgs _ _ Hv). change (CountInv f (thr s0) s).
+  induction Hr as [|s i s' l Hr IH Hstep].
+  - rewrite (start_is_T0 _ _ Hv) at 2. apply count_inv_init.
+  - eapply count_inv_step; [exact IH|exact Hstep].
+Qed.
+
+Lemma pushed_pill_free c clients s0 s :
+  valid_start clients s0 -> pills_in (program_msgs clients) = false -> reach c s0 s ->
+  pills_in (pushed s) = false.
+Proof.
+  intros Hv HP Hr. pose proof (reach_count c clients s0 s is_pill Hv Hr) as E.
+  apply cntm_zero_existsb in HP. apply cntm_zero_existsb. unfold pills_in in *. lia.
+Qed.
+
+Theorem reach_np1 c clients s0 s :
+  valid_start clients s0 -> pills_in (program_msgs clients) = false -> reach c s0 s -> NP1 s.
+Proof.
+  intros Hv HP Hr. induction Hr as [|s i s' l Hr IH Hstep].
+  - destruct (inv_init _ _ Hv) as (HT & _). destruct Hv as [_ [[-> _]|[-> _]]];
+    (split; [|reflexivity]); unfold TokenInv, TI in HT; cbn [status_ thr init init_started] in *; simp_cnts; lia.
+  - destruct (reach_inv c _ _ _ Hv Hr) as (_ & _ & _ & HC).
+    exact (np1_step _ _ _ _ _ HC (pushed_pill_free _ _ _ _ Hv HP Hr) IH Hstep).
+Qed.
+
+Theorem reach_np2 c clients s0 s :
+  started_start clients s0 -> pills_in (program_msgs clients) = false -> reach c s0 s -> NP2 s.
+Proof.
+  intros Hs HP Hr. pose proof (started_valid _ _ Hs) as Hv. induction Hr as [|s i s' l Hr IH Hstep].
+  - destruct Hs as [Hok [[-> Hc]|[-> Hc]]]; unfold NP2, init, init_started; cbn [status_ thr]; intros Hst; [|discriminate].
+    rewrite <- Hc. apply cnt_clients_ext; [exact Hok|client_cases].
+  - destruct (reach_inv c _ _ _ Hv Hr) as (_ & _ & _ & HC).
+    exact (np2_step _ _ _ _ _ HC (pushed_pill_free _ _ _ _ Hv HP Hr) (reach_np1 _ _ _ _ Hv HP Hr) IH Hstep).
+Qed.
+
+(* ------------------------------------------------------------------ *)
+(** * A. Safety theorems over reachable states *)
+
+Theorem token_invariant c clients s0 s :
+  valid_start clients s0 -> reach c s0 s ->
+  (status_ s = Running -> cnt holder (thr s) = 1) /\
+  (status_ s = Idle \/ status_ s = Starting -> cnt holder (thr s) = 0) /\
+  (status_ s = Stopped -> cnt holder (thr s) <= 1) /\
+  (status_ s = Starting <-> cnt atTS (thr s) = 1) /\
+  (cnt isTCas (thr s) + cnt atTS (thr s) >= 1 -> cnt is_worker (thr s) = 0).
+Proof.
+  intros Hv Hr. destruct (reach_inv c _ _ _ Hv Hr) as (HT & _).
+  unfold TokenInv, TI in HT. rewrite cnt_holder_split.
+  destruct (status_ s); (split; [|split; [|split; [|split; [split|]]]]);
+  try (intros [E|E]; try discriminate E); try (intros E; try discriminate E); try reflexivity; lia.
+Qed.
+
+Lemma holder_le1 s : TokenInv s -> cnt holder (thr s) <= 1.
+Proof. unfold TokenInv, TI. rewrite cnt_holder_split. destruct (status_ s); lia. Qed.
+
+Theorem C02_receive_mutex_thm c clients s0 s :
+  valid_start clients s0 -> reach c s0 s -> cnt in_region (thr s) <= 1.
+Proof.
+  intros Hv Hr. destruct (reach_inv c _ _ _ Hv Hr) as (HT & _).
+  pose proof (holder_le1 s HT).
+  assert (cnt in_region (thr s) <= cnt holder (thr s)); [|lia].
+  apply cnt_le. intros p; destruct p; cbn; congruence.
+Qed.
+
+(* a thread is created only by a successful CAS idle->running, and it is a
+   fresh worker about to Load *)
+Theorem C02_handoff_thm c s i s' l :
+  step c s i = Some (s', l) ->
+  (l = LCas Idle Running true /\ status_ s = Idle /\ status_ s' = Running /\
+   exists p, thr s' = firstn i (thr s) ++ p :: skipn (S i) (thr s) ++ [WLoad]) \/
+  (l <> LCas Idle Running true /\ length (thr s') = length (thr s)).
+Proof.
+  step_cases s i Hn; unfold set_thr;
+  first [ left; split; [reflexivity|]; split; [reflexivity|]; split; [reflexivity|]; eexists; reflexivity
+        | right; split; [discriminate|]; rewrite (set_length _ _ _ _ _ Hn); cbn [length]; lia ].
+Qed.
+
+Definition prefix {A} (a b : list A) : Prop := exists r, b = a ++ r.
+
+Lemma prefix_trans {A} (a b c : list A) : prefix a b -> prefix b c -> prefix a c.
+Proof. intros [r ->] [r' ->]. exists (r ++ r'). rewrite app_assoc. reflexivity. Qed.
+
+Lemma prefix_firstn {A} (a b : list A) : prefix a b -> firstn (length a) b = a.
+Proof.
+  intros [r ->]. rewrite firstn_app, firstn_all, Nat.sub_diag. cbn [firstn]. apply app_nil_r.
+Qed.
+
+Theorem conservation c clients s0 s :
+  valid_start clients s0 -> reach c s0 s ->
+  delivered s ++ dropped s ++ inflight s ++ q s = pushed s.
+Proof. intros Hv Hr. exact (proj2 (proj2 (proj2 (reach_inv c _ _ _ Hv Hr)))). Qed.
+
+Theorem delivered_prefix_pushed c clients s0 s :
+  valid_start clients s0 -> reach c s0 s -> prefix (delivered s) (pushed s).
+Proof. intros Hv Hr. eexists. symmetry. exact (conservation c _ _ _ Hv Hr). Qed.
+
+Theorem conservation_lengths c clients s0 s :
+  valid_start clients s0 -> reach c s0 s ->
+  length (delivered s) + length (dropped s) + length (inflight s) + length (q s) = length (pushed s).
+Proof. intros Hv Hr. rewrite <- (conservation c _ _ _ Hv Hr), !app_length. lia. Qed.
+
+Theorem conservation_pill_free c clients s0 s :
+  valid_start clients s0 -> pills_in (program_msgs clients) = false -> reach c s0 s ->
+  dropped s = [] /\ delivered s ++ inflight s ++ q s = pushed s.
+Proof.
+  intros Hv HP Hr. destruct (reach_np1 c _ _ _ Hv HP Hr) as [_ HD]. split; [exact HD|].
+  rewrite <- (conservation c _ _ _ Hv Hr), HD. reflexivity.
+Qed.
+
+(* per sender: what it has pushed so far, followed by what it still has to
+   send, is its program *)
+Theorem program_order c clients s0 s :
+  valid_start clients s0 -> NoDup (program_msgs clients) -> reach c s0 s ->
+  forall j ms, nth_error (thr s0) j = Some (SPush ms) ->
+    exists p, nth_error (thr s) j = Some p /\ sub_of ms (pushed s) ++ remaining p = ms.
+Proof.
+  intros Hv ND Hr j ms Hj. destruct (reach_prog c _ _ _ Hv ND Hr) as [HL HI].
+  destruct (nth_error (thr s) j) as [p|] eqn:E.
+  - exists p. split; [reflexivity|]. specialize (HI j p E). unfold prog in HI. rewrite Hj in HI. exact HI.
+  - exfalso. apply nth_error_None in E. assert (j < length (thr s0)) by (apply nth_error_Some; congruence). lia.
+Qed.
+
+Lemma client_in_start clients s0 p : valid_start clients s0 -> In p clients -> In p (thr s0).
+Proof. intros [_ [[-> _]|[-> _]]] H; [exact H|right; exact H]. Qed.
+
+Theorem program_order_pushed c clients s0 s :
+  valid_start clients s0 -> NoDup (program_msgs clients) -> reach c s0 s ->
+  forall ms, In (SPush ms) clients -> prefix (sub_of ms (pushed s)) ms.
+Proof.
+  intros Hv ND Hr ms Hin. apply (client_in_start _ _ _ Hv) in Hin.
+  apply In_nth_error in Hin. destruct Hin as [j Hj].
+  destruct (program_order c _ _ _ Hv ND Hr j ms Hj) as (p & _ & E). exists (remaining p). symmetry. exact E.
+Qed.
+
+Lemma sub_of_prefix ms a b : prefix a b -> prefix (sub_of ms a) (sub_of ms b).
+Proof. intros [r ->]. exists (sub_of ms r). unfold sub_of. apply filter_app. Qed.
+
+Theorem program_order_delivered c clients s0 s :
+  valid_start clients s0 -> NoDup (program_msgs clients) -> reach c s0 s ->
+  forall ms, In (SPush ms) clients -> prefix (sub_of ms (delivered s)) ms.
+Proof.
+  intros Hv ND Hr ms Hin. eapply prefix_trans; [|exact (program_order_pushed c _ _ _ Hv ND Hr ms Hin)].
+  apply sub_of_prefix. exact (delivered_prefix_pushed c _ _ _ Hv Hr).
+Qed.
+
+Theorem wakeup_invariant c clients s0 s :
+  valid_start clients s0 -> reach c s0 s ->
+  status_ s = Idle -> q s <> [] -> 0 < cnt pending_kick (thr s).
+Proof. intros Hv Hr. exact (proj1 (proj2 (proj2 (reach_inv c _ _ _ Hv Hr)))). Qed.
+
+(* ------------------------------------------------------------------ *)
+(** * B. Quiescent states *)
+
+Lemma quiescent_all_done s p : quiescent s = true -> In p (thr s) -> p = Done.
+Proof.
+  unfold quiescent. rewrite forallb_forall. intros H Hp. specialize (H p Hp). destruct p; try discriminate H. reflexivity.
+Qed.
+
+Lemma quiescent_cnt s f : quiescent s = true -> f Done = false -> cnt f (thr s) = 0.
+Proof. intros H Hf. apply cnt_zero_all. intros p Hp. rewrite (quiescent_all_done s p H Hp). exact Hf. Qed.
+
+Lemma sumf_zero_all g l : (forall p, In p l -> g p = 0) -> sumf g l = 0.
+Proof.
+  induction l as [|a l IH]; intros H; [reflexivity|]. rewrite sumf_cons, (H a (or_introl eq_refl)), IH.
+  - reflexivity.
+  - intros p Hp. apply H. right. exact Hp.
+Qed.
+
+Lemma quiescent_sumf s g : quiescent s = true -> g Done = 0 -> sumf g (thr s) = 0.
+Proof. intros H Hg. apply sumf_zero_all. intros p Hp. rewrite (quiescent_all_done s p H Hp). exact Hg. Qed.
+
+Lemma quiescent_inflight s : quiescent s = true -> inflight s = [].
+Proof. intros H. rewrite inflight_eq. apply noB_flat. apply quiescent_cnt; [exact H|reflexivity]. Qed.
+
+Theorem quiescent_counts c clients s0 s f :
+  valid_start clients s0 -> reach c s0 s -> quiescent s = true ->
+  cntm f (pushed s) = cntm f (program_msgs clients).
+Proof.
+  intros Hv Hr Hq. rewrite <- (reach_count c _ _ _ f Hv Hr).
+  rewrite (quiescent_sumf s _ Hq) by reflexivity. lia.
+Qed.
+
+Theorem C03_quiescent_is_drained_thm c clients s0 s :
+  started_start clients s0 -> pills_in (program_msgs clients) = false ->
+  reach c s0 s -> quiescent s = true ->
+  status_ s = Idle /\ q s = [] /\ delivered s = pushed s /\
+  length (pushed s) = length (program_msgs clients).
+Proof.
+  intros Hs HP Hr Hq. pose proof (started_valid _ _ Hs) as Hv.
+  destruct (reach_inv c _ _ _ Hv Hr) as (HT & _ & HW & HC).
+  destruct (reach_np1 c _ _ _ Hv HP Hr) as [_ HD].
+  pose proof (reach_np2 c _ _ _ Hs HP Hr) as H2.
+  assert (Hst : status_ s = Idle).
+  { unfold TokenInv, TI in HT. unfold NP2 in H2.
+    rewrite (quiescent_cnt s isTCas Hq), (quiescent_cnt s atTS Hq), (quiescent_cnt s isWLoad Hq),
+      (quiescent_cnt s isWPop Hq), (quiescent_cnt s isWInvB Hq), (quiescent_cnt s isWStop Hq),
+      (quiescent_cnt s isWInvE Hq), (quiescent_cnt s isWExit Hq) in * by reflexivity.
+    destruct (status_ s); try reflexivity; try lia. specialize (H2 eq_refl). lia. }
+  assert (Hqe : q s = []).
+  { destruct (q s) as [|m r] eqn:E; [reflexivity|]. exfalso.
+    unfold WakeInv in HW. rewrite E in HW. specialize (HW Hst ltac:(discriminate)).
+    rewrite (quiescent_cnt s pending_kick Hq) in HW by reflexivity. lia. }
+  split; [exact Hst|]. split; [exact Hqe|]. split.
+  - unfold ConsInv in HC. rewrite HD, (quiescent_inflight s Hq), Hqe in HC. cbn [app] in HC.
+    rewrite app_nil_r in HC. exact HC.
+  - pose proof (quiescent_counts c _ _ _ (fun _ => true) Hv Hr Hq) as E. rewrite !cntm_true in E. exact E.
+Qed.
+
+Theorem C01_exactly_once_in_order_thm c clients s0 s :
+  started_start clients s0 -> pills_in (program_msgs clients) = false ->
+  NoDup (program_msgs clients) ->
+  reach c s0 s -> quiescent s = true ->
+  delivered s = pushed s /\
+  (forall ms, In (SPush ms) clients -> sub_of ms (delivered s) = ms) /\
+  (forall m, cntm (Nat.eqb m) (delivered s) = cntm (Nat.eqb m) (program_msgs clients)).
+Proof.
+  intros Hs HP ND Hr Hq. pose proof (started_valid _ _ Hs) as Hv.
+  destruct (C03_quiescent_is_drained_thm c _ _ _ Hs HP Hr Hq) as (_ & _ & Hd & _).
+  split; [exact Hd|]. rewrite Hd. split.
+  - intros ms Hin. apply (client_in_start _ _ _ Hv) in Hin.
+    apply In_nth_error in Hin. destruct Hin as [j Hj].
+    destruct (program_order c _ _ _ Hv ND Hr j ms Hj) as (p & Hp & E).
+    rewrite (quiescent_all_done s p Hq (nth_error_In _ _ Hp)) in E. cbn [remaining] in E.
+    rewrite app_nil_r in E. exact E.
+  - intros m. exact (quiescent_counts c _ _ _ _ Hv Hr Hq).
+Qed.
+
+(* ------------------------------------------------------------------ *)
+(** * C. Termination without fairness: a lexicographic measure *)
+
+Definition gU (p : pc) : nat := length (remaining p).
+Definition gA (p : pc) : nat := match p with SCas _ | TCas | TSwap | TSched | WSched => 1 | _ => 0 end.
+Definition gLen (p : pc) : nat := match p with WLen => 1 | _ => 0 end.
+Definition gExit (p : pc) : nat := b2n (isWExit p).
+Definition gL (p : pc) : nat :=
+  match p with
+  | WLen => 1 | WExit => 2 | WPop => 3 | WLoad => 4 | WInvE => 5 | WStop => 6 | WInvB _ => 7
+  | TCas => 2 | TSwap => 1 | SPush [] => 1 | _ => 0
+  end.
+Definition qne (l : list msg) : bool := match l with [] => false | _ => true end.
+
+(* messages not yet pushed *)
+Definition mU (s : st) : nat := sumf gU (thr s).
+(* kicks still to come; an exited worker counts only while the queue is
+   non-empty, and one that is still to do its exit CAS only while that CAS can
+   succeed *)
+Definition mK (s : st) : nat :=
+  sumf gA (thr s) +
+  (if qne (q s) then sumf gLen (thr s) + (if status_eqb (status_ s) Stopped then 0 else sumf gExit (thr s)) else 0).
+(* local progress *)
+Definition mL (s : st) : nat := 8 * length (q s) + sumf gL (thr s).
+
+Definition lexlt3 (a b : nat * nat * nat) : Prop :=
+  let '(a1, a2, a3) := a in let '(b1, b2, b3) := b in
+  a1 < b1 \/ (a1 = b1 /\ (a2 < b2 \/ (a2 = b2 /\ a3 < b3))).
+Definition meas (s : st) : nat * nat * nat := (mU s, mK s, mL s).
+
+Lemma sumf_b2n f l : sumf (fun p => b2n (f p)) l = cnt f l.
+Proof. induction l as [|a l IH]; [reflexivity|]. rewrite sumf_cons, cnt_cons, IH. reflexivity. Qed.
+
+Lemma skipn_shorter {A} n (l : list A) : 1 <= n -> l <> [] -> length (skipn n l) < length l.
+Proof. intros Hn Hl. rewrite skipn_length. destruct l; [congruence|]. cbn [length]. lia. Qed.
+
+Ltac pose_sums Hn :=
+  match goal with
+  | |- context [set_thr ?s ?i ?p ?extra] =>
+      pose proof (sumf_set gU (thr s) i _ p extra Hn);
+      pose proof (sumf_set gA (thr s) i _ p extra Hn);
+      pose proof (sumf_set gLen (thr s) i _ p extra Hn);
+      pose proof (sumf_set gExit (thr s) i _ p extra Hn);
+      pose proof (sumf_set gL (thr s) i _ p extra Hn);
+      unfold set_thr
+  end.
+
+Theorem measure_decreases c s i s' l :
+  1 <= bound c -> TokenInv s -> step c s i = Some (s', l) -> lexlt3 (meas s') (meas s).
+Proof.
+  intros Hb HT. unfold meas, lexlt3, mU, mK, mL.
+  (* the only uses of the token invariant: when the starter's CAS succeeds no
+     worker is waiting to do its exit CAS; a starter is at its Swap only in
+     status Starting *)
+  assert (HX : status_ s = Stopped -> 0 < cnt isTCas (thr s) -> sumf gExit (thr s) = 0).
+  { intros Hst HC. unfold gExit. rewrite sumf_b2n. unfold TokenInv, TI in HT. rewrite Hst in HT. lia. }
+  pose proof (skipn_shorter (bound c) (q s) Hb) as Hsk.
+  assert (Hln : forall m, length (q s ++ [m]) = S (length (q s))) by (intros m; rewrite app_length; cbn; lia).
+  assert (Hqn : forall m, qne (q s ++ [m]) = true) by (intros m; destruct (q s); reflexivity).
+  destruct (status_ s) eqn:Hst; step_cases s i Hn; try congruence; rewrite ?Hst; cbn [status_eqb];
+  try (pose proof (HX eq_refl (cnt_pos isTCas _ _ _ Hn eq_refl)));
+  try (exfalso; pose proof (cnt_pos atTS _ _ _ Hn eq_refl); unfold TokenInv, TI in HT; rewrite Hst in HT; lia);
+  pose_sums Hn; rewrite ?Hln, ?Hqn;
+  cbn [sumf fold_right gU gA gLen gExit gL remaining b2n isWExit length qne] in *;
+  try match goal with H : q s = _ |- _ => rewrite H in * end; cbn [qne length] in *;
+  try specialize (Hsk ltac:(discriminate));
+  try match goal with |- context [skipn (bound c) ?l] => destruct (skipn (bound c) l) eqn:?; cbn [qne length] in * end;
+  try (destruct (q s); cbn [qne]);
+  lia.
+Qed.
+
+Lemma lexlt3_wf : well_founded lexlt3.
+Proof.
+  intros [[a b] c]. revert b c.
+  induction a as [a IHa] using lt_wf_ind. intros b.
+  induction b as [b IHb] using lt_wf_ind. intros c.
+  induction c as [c IHc] using lt_wf_ind.
+  constructor. intros [[a' b'] c'] H. cbn in H.
+  destruct H as [H|[-> [H|[-> H]]]].
+  - apply IHa. exact H.
+  - apply IHb. exact H.
+  - apply IHc. exact H.
+Qed.
+
+(* one step of a reachable state *)
+Definition Rstep (c : config) (s0 : st) : st -> st -> Prop :=
+  fun s2 s1 => exists i l, step c s1 i = Some (s2, l) /\ reach c s0 s1.
+
+Theorem C03_terminates_thm c clients s0 :
+  valid_start clients s0 -> 1 <= bound c -> well_founded (Rstep c s0).
+Proof.
+  intros Hv Hb s.
+  apply (Acc_incl _ (Rstep c s0) (fun x y => lexlt3 (meas x) (meas y))).
+  - intros s2 s1 (i & l & Hstep & Hr).
+    destruct (reach_inv c _ _ _ Hv Hr) as (HT & _).
+    exact (measure_decreases c s1 i s2 l Hb HT Hstep).
+  - apply (Acc_inverse_image _ _ lexlt3 meas). apply lexlt3_wf.
+Qed.
+
+(* no infinite schedule *)
+Theorem C03_no_infinite_run_thm c clients s0 (f : nat -> st) :
+  valid_start clients s0 -> 1 <= bound c ->
+  reach c s0 (f 0) -> (forall n, exists i l, step c (f n) i = Some (f (S n), l)) -> False.
+Proof.
+  intros Hv Hb H0 Hf.
+  assert (Hr : forall n, reach c s0 (f n)).
+  { induction n as [|n IH]; [exact H0|]. destruct (Hf n) as (i & l & Hs). exact (reach_step c s0 _ _ _ _ IH Hs). }
+  assert (G : forall x, Acc (Rstep c s0) x -> forall n, f n = x -> False).
+  { intros x Hacc. induction Hacc as [x _ IH]. intros n <-.
+    destruct (Hf n) as (i & l & Hs).
+    apply (IH (f (S n))) with (n := S n); [|reflexivity]. exists i, l. split; [exact Hs|apply Hr]. }
+  exact (G (f 0) (C03_terminates_thm c clients s0 Hv Hb (f 0)) 0 eq_refl).
+Qed.
+
+(* every unfinished thread can step: a state with no enabled thread is quiescent *)
+Lemma step_enabled c s i p :
+  nth_error (thr s) i = Some p -> is_done p = false -> step c s i <> None.
+Proof.
+  intros H Hd. unfold step. rewrite H.
+  destruct p as [[|? ?]|ms| | | | | |b| | | | | | ]; try discriminate Hd;
+  try (destruct (status_eqb (status_ s) _)); try (destruct (q s)); unfold kick;
+  try (destruct (status_eqb (status_ s) _)); discriminate.
+Qed.
+
+Lemma forallb_false_ex {A} (f : A -> bool) l : forallb f l = false -> exists x, In x l /\ f x = false.
+Proof.
+  induction l as [|a l IH]; [discriminate|]. cbn [forallb]. destruct (f a) eqn:E.
+  - intros H. destruct (IH H) as (x & Hx & Hf). exists x. split; [right; exact Hx|exact Hf].
+  - intros _. exists a. split; [left; reflexivity|exact E].
+Qed.
+
+Theorem no_deadlock c s :
+  quiescent s = false -> exists i, i < length (thr s) /\ step c s i <> None.
+Proof.
+  intros H. apply forallb_false_ex in H. destruct H as (p & Hp & Hd).
+  apply In_nth_error in Hp. destruct Hp as [i Hi]. exists i. split.
+  - apply nth_error_Some. congruence.
+  - exact (step_enabled c s i p Hi Hd).
+Qed.
+
+(* P is reached on every maximal run from s, and every such run is finite *)
+Inductive inev (c : config) (P : st -> Prop) : st -> Prop :=
+| inev_now s : P s -> inev c P s
+| inev_step s : (exists i, step c s i <> None) ->
+                (forall i s' l, step c s i = Some (s', l) -> inev c P s') -> inev c P s.
+
+Lemma inev_reach_gen c clients s0 (P Q : st -> Prop) :
+  valid_start clients s0 -> 1 <= bound c ->
+  (forall t i t' l, Q t -> step c t i = Some (t', l) -> Q t') ->
+  (forall t, reach c s0 t -> Q t -> quiescent t = true -> P t) ->
+  forall s, reach c s0 s -> Q s -> inev c P s.
+Proof.
+  intros Hv Hb HQ HP s.
+  induction (C03_terminates_thm c clients s0 Hv Hb s) as [s _ IH]. intros Hr Hq.
+  destruct (quiescent s) eqn:E.
+  - apply inev_now. exact (HP s Hr Hq E).
+  - apply inev_step.
+    + destruct (no_deadlock c s E) as (i & _ & Hi). exists i. exact Hi.
+    + intros i s' l Hs. apply IH.
+      * exists i, l. split; [exact Hs|exact Hr].
+      * exact (reach_step c s0 _ _ _ _ Hr Hs).
+      * exact (HQ _ _ _ _ Hq Hs).
+Qed.
+
+Definition drained (clients : list pc) (t : st) : Prop :=
+  quiescent t = true /\ status_ t = Idle /\ q t = [] /\ delivered t = pushed t /\
+  length (pushed t) = length (program_msgs clients).
+
+(* every maximal execution from a reachable state is finite and ends quiescent *)
+Theorem C03_every_run_quiesces_thm c clients s0 s :
+  valid_start clients s0 -> 1 <= bound c -> reach c s0 s ->
+  inev c (fun t => quiescent t = true /\ reach c s0 t) s.
+Proof.
+  intros Hv Hb Hr.
+  apply (inev_reach_gen c clients s0 _ (fun _ => True) Hv Hb); auto.
+Qed.
+
+(* ... and, for a started inbox and pill-free programs, drained *)
+Theorem C03_every_run_drains_thm c clients s0 s :
+  started_start clients s0 -> pills_in (program_msgs clients) = false -> 1 <= bound c ->
+  reach c s0 s -> inev c (drained clients) s.
+Proof.
+  intros Hs HP Hb Hr.
+  apply (inev_reach_gen c clients s0 _ (fun _ => True) (started_valid _ _ Hs) Hb); auto.
+  intros t Ht _ Hq. split; [exact Hq|]. exact (C03_quiescent_is_drained_thm c _ _ _ Hs HP Ht Hq).
+Qed.
+
+Lemma reach_trans c s0 s1 s2 : reach c s0 s1 -> reach c s1 s2 -> reach c s0 s2.
+Proof.
+  intros H1 H2. induction H2 as [|s i s' l H2 IH Hs]; [exact H1|]. exact (reach_step c s0 _ _ _ _ IH Hs).
+Qed.
+
+Lemma step_pushed_mono c s i s' l : step c s i = Some (s', l) -> prefix (pushed s) (pushed s').
+Proof.
+  intros H. destruct (step_summary _ _ _ _ _ H) as (old & p & extra & _ & _ & _ & [[Hp _]|(m & Hp & _)]);
+  rewrite Hp; [exists []; rewrite app_nil_r; reflexivity|exists [m]; reflexivity].
+Qed.
+
+Lemma reach_pushed_mono c s1 s2 : reach c s1 s2 -> prefix (pushed s1) (pushed s2).
+Proof.
+  intros H. induction H as [|s i s' l H IH Hs]; [exists []; rewrite app_nil_r; reflexivity|].
+  exact (prefix_trans _ _ _ IH (step_pushed_mono _ _ _ _ _ Hs)).
+Qed.
+
+(* whatever was pushed by the time of s1 -- in particular before Start has
+   completed -- has been delivered, in that order, in every quiescent state
+   reached afterwards *)
+Theorem C03_start_picks_up_backlog_thm c clients s0 s1 s2 :
+  started_start clients s0 -> pills_in (program_msgs clients) = false ->
+  reach c s0 s1 -> reach c s1 s2 -> quiescent s2 = true ->
+  prefix (pushed s1) (delivered s2).
+Proof.
+  intros Hs HP H1 H2 Hq.
+  destruct (C03_quiescent_is_drained_thm c _ _ _ Hs HP (reach_trans _ _ _ _ H1 H2) Hq) as (_ & _ & -> & _).
+  exact (reach_pushed_mono c s1 s2 H2).
+Qed.
+
+(* ... and such a state is reached on every run from s1, with no further stimulus *)
+Theorem C03_backlog_is_delivered_thm c clients s0 s1 :
+  started_start clients s0 -> pills_in (program_msgs clients) = false -> 1 <= bound c ->
+  reach c s0 s1 ->
+  inev c (fun t => drained clients t /\ prefix (pushed s1) (delivered t)) s1.
+Proof.
+  intros Hs HP Hb H1.
+  apply (inev_reach_gen c clients s0 _ (fun t => reach c s1 t) (started_valid _ _ Hs) Hb).
+  - intros t i t' l Ht Hstep. exact (reach_step c s1 _ _ _ _ Ht Hstep).
+  - intros t Ht H2 Hq. split.
+    + split; [exact Hq|]. exact (C03_quiescent_is_drained_thm c _ _ _ Hs HP Ht Hq).
+    + exact (C03_start_picks_up_backlog_thm c clients s0 s1 t Hs HP H1 H2 Hq).
+  - exact H1.
+  - apply reach_refl.
+Qed.
+
+(* ------------------------------------------------------------------ *)
+(** * The oracle of InboxExec holds of every model run *)
+
+Lemma run_sched_reach c s0 sched : forall s s' ls,
+  reach c s0 s -> run_sched c s sched = Some (s', ls) -> reach c s0 s'.
+Proof.
+  induction sched as [|i r IH]; intros s s' ls Hr H; cbn [run_sched] in H.
+  - injection H as <- _. exact Hr.
+  - destruct (step c s i) as [[s1 l]|] eqn:E; [|discriminate].
+    destruct (run_sched c s1 r) as [[s2 ls2]|] eqn:E2; [|discriminate]. injection H as <- _.
+    exact (IH s1 s2 ls2 (reach_step c s0 _ _ _ _ Hr E) E2).
+Qed.
+
+(* model-side observation flags *)
+Definition deadlocked (c : config) (s : st) : bool :=
+  negb (quiescent s) &&
+  forallb (fun i => match step c s i with None => true | Some _ => false end) (seq 0 (length (thr s))).
+
+Fixpoint overlap_along (c : config) (s : st) (sched : list nat) : bool :=
+  Nat.ltb 1 (region_count s) ||
+  match sched with
+  | [] => false
+  | i :: r => match step c s i with Some (s', _) => overlap_along c s' r | None => false end
+  end.
+
+Lemma not_deadlocked c s : deadlocked c s = false.
+Proof.
+  unfold deadlocked. destruct (quiescent s) eqn:E; [reflexivity|]. cbn [negb andb].
+  destruct (no_deadlock c s E) as (i & Hi & Hs).
+  match goal with |- ?b = false => destruct b eqn:F; [|reflexivity] end.
+  exfalso. rewrite forallb_forall in F. specialize (F i). rewrite in_seq in F. specialize (F ltac:(lia)).
+  destruct (step c s i); [discriminate|]. apply Hs. reflexivity.
+Qed.
+
+Lemma no_overlap_along c clients s0 sched : forall s,
+  valid_start clients s0 -> reach c s0 s -> overlap_along c s sched = false.
+Proof.
+  induction sched as [|i r IH]; intros s Hv Hr; cbn [overlap_along];
+  pose proof (C02_receive_mutex_thm c _ _ _ Hv Hr) as Hm;
+  (replace (Nat.ltb 1 (region_count s)) with false by (symmetry; apply Nat.ltb_ge; exact Hm)); cbn [orb].
+  - reflexivity.
+  - destruct (step c s i) as [[s1 l]|] eqn:E; [|reflexivity].
+    exact (IH s1 Hv (reach_step c s0 _ _ _ _ Hr E)).
+Qed.
+
+Definition model_obs (c : config) (s0 : st) (sched : list nat) (s : st) : obs :=
+  {| o_status := status_ s; o_qlen := length (q s); o_delivered := delivered s; o_dropped := dropped s;
+     o_pushed := pushed s; o_overlap := overlap_along c s0 sched; o_deadlock := deadlocked c s;
+     o_terminal := quiescent s |}.
+
+Definition model_case (prop bnd : nat) (started : bool) (clients : list pc) (sched : list nat)
+           (ls : list label) (s : st) : case :=
+  {| c_prop := prop; c_bound := bnd; c_started := started; c_clients := clients; c_sched := sched;
+     c_labels := ls; c_replay := true;
+     c_obs := model_obs {| bound := bnd |} (if started then init_started clients else init clients) sched s |}.
+
+Lemma list_eqb_refl {A} (f : A -> A -> bool) (l : list A) : (forall a, f a a = true) -> list_eqb f l l = true.
+Proof. intros Hf. induction l as [|a l IH]; [reflexivity|]. cbn. rewrite Hf, IH. reflexivity. Qed.
+
+Lemma nat_list_eqb_refl (l : list nat) : list_eqb Nat.eqb l l = true.
+Proof. apply list_eqb_refl. apply Nat.eqb_refl. Qed.
+
+Lemma status_eqb_refl a : status_eqb a a = true.
+Proof. destruct a; reflexivity. Qed.
+
+Lemma label_eqb_refl a : label_eqb a a = true.
+Proof.
+  destruct a; cbn; rewrite ?Nat.eqb_refl, ?status_eqb_refl, ?nat_list_eqb_refl, ?Bool.eqb_reflx; reflexivity.
+Qed.
+
+Lemma is_prefix_true a b : prefix a b -> is_prefix a b = true.
+Proof. intros H. unfold is_prefix. rewrite (prefix_firstn _ _ H). apply nat_list_eqb_refl. Qed.
+
+Lemma existsb_cnt_pos f l : existsb f l = true -> 0 < cnt f l.
+Proof.
+  induction l as [|a l IH]; [discriminate|]. cbn [existsb]. rewrite cnt_cons.
+  destruct (f a); cbn; [lia|]. intros H. specialize (IH H). lia.
+Qed.
+
+Definition start_of (started : bool) (clients : list pc) : st :=
+  if started then init_started clients else init clients.
+Definition clients_valid (started : bool) (clients : list pc) : Prop :=
+  forallb client_ok clients = true /\
+  (if started then cnt is_starter clients = 0 else cnt is_starter clients <= 1).
+
+Lemma clients_valid_start started clients :
+  clients_valid started clients -> valid_start clients (start_of started clients).
+Proof. intros [H1 H2]. split; [exact H1|]. destruct started; [right|left]; split; auto. Qed.
+
+Lemma clients_started_start started clients :
+  clients_valid started clients -> started || has_starter clients = true ->
+  started_start clients (start_of started clients).
+Proof.
+  intros [H1 H2] H3. split; [exact H1|]. destruct started; [right; split; auto|left].
+  split; [reflexivity|]. cbn [orb] in H3. apply existsb_cnt_pos in H3. lia.
+Qed.
+
+(* C01 projection: holds in every reachable state *)
+Theorem oracle_c01_model c started clients s :
+  clients_valid started clients -> NoDup (program_msgs clients) ->
+  reach c (start_of started clients) s ->
+  is_prefix (delivered s) (pushed s) && sender_order_ok clients (pushed s) &&
+  (if quiescent s
+   then Nat.eqb (length (delivered s) + length (dropped s) + length (q s)) (length (pushed s))
+   else true) = true.
+Proof.
+  intros Hc ND Hr. pose proof (clients_valid_start _ _ Hc) as Hv.
+  rewrite (is_prefix_true _ _ (delivered_prefix_pushed c _ _ _ Hv Hr)). cbn [andb].
+  apply andb_true_intro. split.
+  - unfold sender_order_ok. apply forallb_forall. intros p Hp. destruct p; try reflexivity.
+    rewrite (prefix_firstn _ _ (program_order_pushed c _ _ _ Hv ND Hr ms Hp)). apply nat_list_eqb_refl.
+  - destruct (quiescent s) eqn:E; [|reflexivity]. apply Nat.eqb_eq.
+    pose proof (conservation_lengths c _ _ _ Hv Hr) as L. rewrite (quiescent_inflight s E) in L. cbn [length] in L. lia.
+Qed.
+
+(* C02 projection *)
+Theorem oracle_c02_model c started clients s :
+  clients_valid started clients -> reach c (start_of started clients) s ->
+  Nat.leb (region_count s) 1 = true.
+Proof.
+  intros Hc Hr. apply Nat.leb_le. exact (C02_receive_mutex_thm c _ _ _ (clients_valid_start _ _ Hc) Hr).
+Qed.
+
+(* C03 projection *)
+Theorem oracle_c03_model c started clients s :
+  clients_valid started clients -> reach c (start_of started clients) s ->
+  negb (deadlocked c s) &&
+  (if quiescent s && (started || has_starter clients) && negb (pills_in (program_msgs clients))
+   then status_eqb (status_ s) Idle && Nat.eqb (length (q s)) 0 &&
+        Nat.eqb (length (pushed s)) (length (program_msgs clients)) &&
+        Nat.eqb (length (delivered s)) (length (pushed s))
+   else true) = true.
+Proof.
+  intros Hc Hr. rewrite not_deadlocked. cbn [negb andb].
+  destruct (quiescent s) eqn:Hq; [|reflexivity].
+  destruct (started || has_starter clients) eqn:Hs; [|reflexivity].
+  destruct (pills_in (program_msgs clients)) eqn:HP; [reflexivity|]. cbn [andb negb].
+  destruct (C03_quiescent_is_drained_thm c _ _ _ (clients_started_start _ _ Hc Hs) HP Hr Hq) as (E1 & E2 & E3 & E4).
+  rewrite E1, E2, E3, E4. cbn [status_eqb length andb]. rewrite !Nat.eqb_refl. reflexivity.
+Qed.
+
+(* the case built from any model run passes the oracle, whatever projection
+   is selected, and corresponds to itself *)
+Theorem oracle_sound prop bnd started clients sched s ls :
+  clients_valid started clients -> NoDup (program_msgs clients) ->
+  run_sched {| bound := bnd |} (start_of started clients) sched = Some (s, ls) ->
+  oracle (model_case prop bnd started clients sched ls s) = true /\
+  corr (model_case prop bnd started clients sched ls s) = true.
+Proof.
+  intros Hc ND Hrun. set (c := {| bound := bnd |}) in *.
+  pose proof (clients_valid_start _ _ Hc) as Hv.
+  assert (Hr : reach c (start_of started clients) s) by (eapply run_sched_reach; [apply reach_refl|exact Hrun]).
+  assert (O1 : oracle_c01 (model_case prop bnd started clients sched ls s) = true)
+    by exact (oracle_c01_model c started clients s Hc ND Hr).
+  assert (O2 : oracle_c02 (model_case prop bnd started clients sched ls s) = true).
+  { unfold oracle_c02, model_case, model_obs. cbn [c_obs o_overlap]. fold c. fold (start_of started clients).
+    rewrite (no_overlap_along c clients _ sched _ Hv (reach_refl c _)). reflexivity. }
+  assert (O3 : oracle_c03 (model_case prop bnd started clients sched ls s) = true)
+    by exact (oracle_c03_model c started clients s Hc Hr).
+  split.
+  - unfold oracle. change (c_prop (model_case prop bnd started clients sched ls s)) with prop.
+    destruct prop as [|[|[|[|n]]]]; rewrite ?O1, ?O2, ?O3; reflexivity.
+  - unfold corr, model_case, model_obs, start_state.
+    cbn [c_replay c_started c_clients c_bound c_sched c_labels c_obs negb
+         o_status o_qlen o_delivered o_dropped o_pushed o_terminal].
+    fold c. fold (start_of started clients). rewrite Hrun.
+    rewrite (list_eqb_refl label_eqb ls label_eqb_refl), status_eqb_refl, Nat.eqb_refl,
+      !nat_list_eqb_refl, Bool.eqb_reflx. reflexivity.
+Qed.
+
+(* ------------------------------------------------------------------ *)
+(** * Exactly once, as a permutation *)
+
+Lemma cntm_count_occ m l : cntm (Nat.eqb m) l = count_occ Nat.eq_dec l m.
+Proof.
+  induction l as [|a l IH]; [reflexivity|]. rewrite cntm_cons. cbn [count_occ].
+  destruct (Nat.eq_dec a m) as [->|Hne].
+  - rewrite Nat.eqb_refl, IH. reflexivity.
+  - replace (m =? a) with false by (symmetry; apply Nat.eqb_neq; congruence). rewrite IH. reflexivity.
+Qed.
+
+(* at quiescence the receiver got exactly the multiset of messages of all
+   programs (no NoDup needed: multiplicities are preserved) *)
+Theorem C01_delivered_permutation_thm c clients s0 s :
+  started_start clients s0 -> pills_in (program_msgs clients) = false ->
+  reach c s0 s -> quiescent s = true ->
+  Permutation (delivered s) (program_msgs clients).
+Proof.
+  intros Hs HP Hr Hq. apply (Permutation_count_occ Nat.eq_dec). intros m.
+  destruct (C03_quiescent_is_drained_thm c _ _ _ Hs HP Hr Hq) as (_ & _ & -> & _).
+  rewrite <- !cntm_count_occ. exact (quiescent_counts c _ _ _ _ (started_valid _ _ Hs) Hr Hq).
+Qed.
+
+(* ------------------------------------------------------------------ *)
+(** * D. Non-vacuity *)
+
+Definition ex_c : config := {| bound := 2 |}.
+Definition ex_clients : list pc := [SPush [1; 2]; SPush [3]; TCas].
+(* sender 0 pushes 1 before Start has even begun; Start's own kick finds the
+   worker token taken by sender 0's second kick; batches [1;2] and [3] *)
+Definition ex_sched : list nat := [0; 2; 0; 2; 0; 2; 0; 3; 1; 3; 1; 3; 3; 3; 3; 3; 3; 3; 3; 3; 3].
+
+Ltac nodup_nat := repeat (constructor; [cbn; intuition discriminate|]); constructor.
+
+Example ex_hypotheses :
+  started_start ex_clients (init ex_clients) /\ valid_start ex_clients (init ex_clients) /\
+  clients_valid false ex_clients /\
+  pills_in (program_msgs ex_clients) = false /\ NoDup (program_msgs ex_clients) /\ 1 <= bound ex_c.
+Proof.
+  repeat split; try reflexivity; try (left; split; [reflexivity|cbn; lia]); try (cbn; lia).
+  cbn. nodup_nat.
+Qed.
+
+Example ex_quiescent_run :
+  exists s ls, run_sched ex_c (init ex_clients) ex_sched = Some (s, ls) /\
+    reach ex_c (init ex_clients) s /\ quiescent s = true /\
+    status_ s = Idle /\ q s = [] /\ delivered s = [1; 2; 3] /\ pushed s = [1; 2; 3] /\
+    In (LCas Stopped Starting true) ls /\ In (LPopN [1; 2] true) ls.
+Proof.
+  eexists. eexists. split; [vm_compute; reflexivity|]. split.
+  - eapply (run_sched_reach ex_c (init ex_clients) ex_sched (init ex_clients)); [apply reach_refl|].
+    vm_compute; reflexivity.
+  - vm_compute. intuition.
+Qed.
+
+(* the backlog case: 1 is pushed while the inbox is still Stopped *)
+Example ex_backlog :
+  exists s1 ls, run_sched ex_c (init ex_clients) [0] = Some (s1, ls) /\
+    status_ s1 = Stopped /\ pushed s1 = [1].
+Proof. eexists. eexists. split; [vm_compute; reflexivity|]. split; reflexivity. Qed.
+
+(* the premise of the wake-up invariant is satisfiable: idle, non-empty queue,
+   and two threads still to kick *)
+Example ex_wakeup_premise :
+  exists s ls, run_sched ex_c (init [SPush [1]; TCas]) [0; 1; 1] = Some (s, ls) /\
+    status_ s = Idle /\ q s = [1] /\ cnt pending_kick (thr s) = 2.
+Proof. eexists. eexists. split; [vm_compute; reflexivity|]. repeat split; reflexivity. Qed.
+
+(* a poison pill: the rest of its batch is dropped, the inbox ends stopped,
+   and nothing is lost from the account *)
+Definition ex_pill_clients : list pc := [SPush [1; 1000; 2]].
+Definition ex_pill_sched : list nat := [0; 1; 0; 1; 0; 1; 0; 1; 0; 1; 0; 1; 0; 0; 0; 0; 0].
+
+Example ex_pill_run :
+  exists s ls, run_sched ex_c (init_started ex_pill_clients) ex_pill_sched = Some (s, ls) /\
+    quiescent s = true /\ status_ s = Stopped /\ delivered s = [1] /\ dropped s = [1000; 2] /\
+    q s = [] /\ pushed s = [1; 1000; 2] /\ In (LStore Stopped) ls /\
+    oracle (model_case 0 2 true ex_pill_clients ex_pill_sched ls s) = true.
+Proof. eexists. eexists. split; [vm_compute; reflexivity|]. vm_compute. intuition. Qed.
+
+Example ex_oracle_run :
+  exists s ls, run_sched ex_c (init ex_clients) ex_sched = Some (s, ls) /\
+    oracle (model_case 0 2 false ex_clients ex_sched ls s) = true /\
+    corr (model_case 0 2 false ex_clients ex_sched ls s) = true.
+Proof. eexists. eexists. split; [vm_compute; reflexivity|]. split; vm_compute; reflexivity. Qed.
+
+(* why a started inbox must not have a further starter among its clients (and
+   why [init] allows at most one): after a pill has stopped the inbox with its
+   worker still inside Invoke, a Start re-opens it and a second worker enters a
+   receive region -- the L1 shadow of finding D4 *)
+Example two_workers_if_restarted :
+  exists s ls, run_sched {| bound := 1 |} (init_started [SPush [1000; 1]; TCas])
+                 [1;1;1;1;0;0;0;0;2;2;2;3;3;3] = Some (s, ls) /\ cnt in_region (thr s) = 2.
+Proof. eexists. eexists. split; [vm_compute; reflexivity|]. reflexivity. Qed.
+
+(* the measure on the example: it starts at (3, 1, _) *)
+Example ex_measure : meas (init ex_clients) = (3, 1, 2).
+Proof. vm_compute. reflexivity. Qed.
